@@ -28,6 +28,8 @@ def run_cases(chk, binr, seq, conc, pf_ok, pf):
             for i, op in enumerate(c["ops"]):
                 if op["p"] not in seen and not (op["via"] == "schema" and op["p"] == ""):
                     seen.append(op["p"])
+                if op["via"] == "closed" and op.get("p2", op["p"]) not in seen:
+                    seen.append(op.get("p2", op["p"]))
                 valid = sorted(p for p in seen if valid_go_regexp(p, r, i, c))
                 if sorted(r["keys"][i] or []) != valid:
                     problems.append({"after_op": i, "cache_keys": r["keys"][i], "expected_keys": valid})
@@ -69,6 +71,8 @@ def valid_go_regexp(p, rec, i, case):
     for k, op in enumerate(case["ops"]):
         if op["p"] == p:
             return bool(rec["pattern_valid"][k])
+        if op.get("p2") == p and "pattern2_valid" in rec:
+            return bool(rec["pattern2_valid"][k])
     return True
 
 
